@@ -50,12 +50,13 @@ func svAlphabet(a, b, u uint64, pay int64) []*FrameSpec {
 		/* 24 */ {Id: a, Hdr: "ok:0", Method: mBidi, Src: "src", Dst: "dst", Body: i64(-1)}, // body a that does not unmarshal
 		/* 25 */ {Id: b, Hdr: "ok:0", Method: mSStr, Src: "src", Dst: "dst", Body: i64(pay + 13), Status: ok, Trl: "ok:0"}, // body + trailer on b, other stream method
 		/* 26 */ {Id: a, Hdr: "ok:0", Method: mUnary, Src: "src", Dst: "dst", Body: i64(pay + 14), Status: bad, Trl: "bad", Rst: "rst"}, // unary request with every other field set, on a stream's id
+		/* 27 */ {Id: a, Hdr: "ok:0", Method: mBidi, Src: "src", Dst: "dst", Body: i64(0)}, // body a whose payload is EMPTY (a zero-valued message): still a body
 	}
 }
 
 var svAlphabetNames = []string{"unary", "unary-md", "unary-nobody", "unary-badbody", "unary-badmd", "unary-wrongdst", "nohdr", "empty",
 	"badmethod", "emptymethod", "unksvc", "unkmethod", "noslash", "open-a", "open-b", "open-badmd", "body-a", "body-b", "close-a",
-	"close-b-err", "rst-a", "rst-b", "rst-othertype", "open-wrongdst", "badbody-a", "body+trl-b", "unary-allfields"}
+	"close-b-err", "rst-a", "rst-b", "rst-othertype", "open-wrongdst", "badbody-a", "body+trl-b", "unary-allfields", "emptybody-a"}
 
 func svRandHop(r *rand.Rand, unary bool) *HopSpec {
 	mds := []int64{1, 8, 64, 9}
